@@ -91,10 +91,12 @@ def ssmocmaUpdate (ind : List Pt → Indicator) (parents : List Indiv) (o : Indi
 /-! ### generational: NSGA-II, NSGA-III, MO-CMA-ES, RVEA -/
 
 /-- the last selected element of a list: `l = A ++ z :: B`, `z` selected, `B` all unselected -/
-def splitLastSel (l : List Indiv) : Option (List Indiv × Indiv × List Indiv) :=
-  match l.reverse.span (fun p => !p.sel) with
-  | (_, []) => none
-  | (brev, z :: arev) => some (arev.reverse, z, brev.reverse)
+def splitLastSel : List Indiv → Option (List Indiv × Indiv × List Indiv)
+  | [] => none
+  | a :: t =>
+    match splitLastSel t with
+    | some (A, z, B) => some (a :: A, z, B)
+    | none => if a.sel then some ([], a, t) else none
 
 /-- libstdc++ `std::partition(first, last, selected)` (bidirectional version): scan for the first
 unselected element from the left and the last selected one from the right, swap, repeat -/
